@@ -488,13 +488,10 @@ func splitHostURI(host, uri []byte) ([]byte, []byte, []byte) {
 	}
 
 	uri = path[len(bytestr.StrSlashSlash):]
-	n := bytes.IndexByte(uri, '/')
+	// The authority ends at the first slash, question mark or number sign (RFC 3986 3.2):
+	// urls like foobar.com?a=b/c or foobar.com#d have an empty path.
+	n := bytes.IndexAny(uri, "/?#")
 	if n < 0 {
-		// A hack for bogus urls like foobar.com?a=b without
-		// slash after host.
-		if n = bytes.IndexByte(uri, '?'); n >= 0 {
-			return scheme, uri[:n], uri[n:]
-		}
 		return scheme, uri, bytestr.StrSlash
 	}
 	return scheme, uri[:n], uri[n:]
